@@ -193,12 +193,134 @@ pub fn exec_expl(ops: Vec<Op>, stream: &str, max_pairs: usize) -> Case {
     }
 }
 
+
+/// congruence stream: equal inner terms (asserted directly, through a chain, or through a symmetry) inside one- and
+/// two-level contexts, half of them binders whose bound name occurs in the inner terms
+#[cfg(feature = "explanations")]
+fn gen_congr(rng: &mut crate::rng::Rng) -> Vec<Op> {
+    use crate::terms::CField as F;
+    let leaf = |v: usize, sl: &[u32]| ATerm { v, fields: sl.iter().map(|s| F::Slot(*s)).collect(), children: vec![] };
+    let un = |v: usize, a: ATerm| ATerm { v, fields: vec![F::App], children: vec![a] };
+    let bin = |v: usize, a: ATerm, b: ATerm| ATerm { v, fields: vec![F::App, F::App], children: vec![a, b] };
+    let bind = |v: usize, x: u32, a: ATerm| ATerm { v, fields: vec![F::Bind(x, Box::new(F::App))], children: vec![a] };
+    let bx = BINDERS[rng.below(BINDERS.len())];
+    let under_binder = rng.chance(1, 2);
+    // slots available to the inner terms: free ones, plus the bound name when under a binder
+    let mut sl: Vec<u32> = FREE[..3].to_vec();
+    if under_binder {
+        sl[rng.below(3)] = bx;
+    }
+    rng.shuffle(&mut sl);
+    let inner = |rng: &mut crate::rng::Rng, k: usize, sl: &[u32]| -> ATerm {
+        match (k, rng.below(3)) {
+            (3, 0) => leaf(8, sl),
+            (3, 1) => leaf(12, sl),
+            (3, _) => bin(14, leaf(7, &sl[0..2]), leaf(10, &sl[2..3])),
+            (2, 0) => leaf(7, &sl[0..2]),
+            (2, 1) => leaf(11, &sl[0..2]),
+            (2, _) => un(13, leaf(11, &sl[0..2])),
+            (_, 0) => leaf(10, &sl[0..1]),
+            (_, _) => un(13, leaf(2, &sl[0..1])),
+        }
+    };
+    let ka = rng.range(2, 3);
+    let kb = if rng.chance(1, 3) { rng.range(1, ka) } else { ka }; // fewer slots on one side: redundancy under the context
+    let a = inner(rng, ka, &sl);
+    let mut b = inner(rng, kb, &sl);
+    if b == a {
+        b = un(13, a.clone());
+    }
+    // contexts are built deterministically from one choice so that both sides get the same context
+    let choice = rng.below(3);
+    let other = leaf(10, &[FREE[3]]);
+    let ctx = |t: ATerm| -> ATerm {
+        if under_binder {
+            match choice {
+                0 => bind(0, bx, t),
+                1 => bind(6, bx, bin(5, t, leaf(2, &[bx]))),
+                _ => bind(0, bx, bin(14, t, leaf(2, &[bx]))),
+            }
+        } else {
+            match choice {
+                0 => un(13, t),
+                1 => bin(14, t, other.clone()),
+                _ => bin(4, other.clone(), t),
+            }
+        }
+    };
+    let outer_choice = rng.below(3);
+    let outer = |t: ATerm| -> ATerm {
+        match outer_choice {
+            0 => t,
+            1 => un(13, t),
+            _ => bin(14, t.clone(), t),
+        }
+    };
+    let mut terms: Vec<ATerm> = Vec::new();
+    let mut unions: Vec<(usize, usize)> = Vec::new();
+    let mut push = |terms: &mut Vec<ATerm>, t: ATerm| -> usize {
+        if let Some(i) = terms.iter().position(|x| *x == t) {
+            i
+        } else {
+            terms.push(t);
+            terms.len() - 1
+        }
+    };
+    // inner terms can only be tracked (and unioned) when they are closed, i.e. not under the binder;
+    // under a binder the equality of the bodies is asserted between closed wrappers `lam x. a` / `lam x. b`
+    if under_binder {
+        let la = push(&mut terms, bind(0, bx, a.clone()));
+        let lb = push(&mut terms, bind(0, bx, b.clone()));
+        // the bodies become equal only through congruence if we assert equality of closed sub-parts instead:
+        // assert a' = b' for the closed instance with the bound name replaced by a free one, then compare binders
+        let free_for_bx = FREE[4];
+        let rho = move |c: u32| if c == bx { free_for_bx } else { c };
+        let a2 = push(&mut terms, rename_free(&a, &rho));
+        let b2 = push(&mut terms, rename_free(&b, &rho));
+        unions.push((a2, b2));
+        push(&mut terms, outer(ctx(a.clone())));
+        push(&mut terms, outer(ctx(b.clone())));
+        let _ = (la, lb);
+    } else {
+        let ia = push(&mut terms, a.clone());
+        let ib = push(&mut terms, b.clone());
+        if rng.chance(1, 3) {
+            let c = leaf(11, &sl[0..2]);
+            let ic = push(&mut terms, c);
+            unions.push((ia, ic));
+            unions.push((ic, ib));
+        } else {
+            unions.push((ia, ib));
+        }
+        if rng.chance(1, 2) && ka == 3 {
+            // a symmetry of the inner term, so that the context needs a permuted child proof
+            let mut p = sl.clone();
+            p.rotate_left(1);
+            let rho_sl = sl.clone();
+            let rho = move |c: u32| rho_sl.iter().position(|x| *x == c).map(|i| p[i]).unwrap_or(c);
+            let ar = push(&mut terms, rename_free(&a, &rho));
+            unions.push((ia, ar));
+            push(&mut terms, outer(ctx(rename_free(&a, &rho))));
+        }
+        push(&mut terms, outer(ctx(a.clone())));
+        push(&mut terms, outer(ctx(b.clone())));
+    }
+    let mut ops: Vec<Op> = terms.into_iter().map(Op::Add).collect();
+    for (i, j) in unions {
+        if i != j {
+            ops.push(Op::Union(i, j));
+        }
+    }
+    ops.push(Op::Query);
+    ops
+}
+
 #[cfg(feature = "explanations")]
 pub fn run(ctx: &mut Ctx) {
     let max_pairs = ctx.param("max_pairs", 6);
     for _ in 0..ctx.count {
         let mut rng = ctx.rng.fork();
-        let (ops, stream) = gen_history(&mut rng);
+        let (ops, stream) = if rng.chance(1, 4) { (gen_congr(&mut rng), "congr") } else { gen_history(&mut rng) };
         ctx.emit(exec_expl(ops, stream, max_pairs));
     }
 }
